@@ -63,16 +63,20 @@ func init() {
 			lo := new(big.Int).Lsh(one, uint(bl))
 			for _, delta := range []int64{-2, -1, 0, 1} {
 				v := new(big.Int).Add(lo, big.NewInt(delta))
-				emit(runNumDigits(v))
-				emit(runNumDigits(new(big.Int).Neg(v)))
+				if mine() {
+					emit(runNumDigits(v))
+					emit(runNumDigits(new(big.Int).Neg(v)))
+				}
 			}
 		}
 		for k := 0; k <= 45; k++ {
 			p := pow10(k)
 			for _, delta := range []int64{-1, 0, 1} {
 				v := new(big.Int).Add(p, big.NewInt(delta))
-				emit(runNumDigits(v))
-				emit(runNumDigits(new(big.Int).Neg(v)))
+				if mine() {
+					emit(runNumDigits(v))
+					emit(runNumDigits(new(big.Int).Neg(v)))
+				}
 			}
 		}
 		for i := 0; i < n; i++ {
